@@ -79,6 +79,7 @@ struct call_ctx
     bool jac_neg = false;    // multi channel: the map reverses the orientation for odd channels (negative jacobian, negative weights)
     bool reload = false;     // VEGAS: the (zero-result) checkpoint goes through its text form before the first iteration
     std::size_t md = 0;      // multi channel: number of coordinates (map dimensions) if different from the number of random numbers
+    bool md0 = false;        // multi channel: a map without coordinates (it keeps the kinematics itself): map dimensions 0
 
     value_spec const& spec() const { return plan[call % plan.size()]; }
 
@@ -118,7 +119,7 @@ struct traced_map
             ev("MapDens").i("self", addr_id(this)).i("ch", (long long) ch).i("rn", ids().id(hexvec(rn))).i("caddr", addr_id(&co))
                 .i("csum", ids().id("c:" + hexvec(co))).i("daddr", addr_id(&de)).i("dsum", ids().id("d:" + hexvec(de))).emit();
         // region of the first coordinate selects a common scale 1/2, 1, 2
-        T y = co[0];
+        T y = co.empty() ? rn[0] : co[0];
         T scale = y < T(0.25) ? T(0.5) : (y < T(0.75) ? T(1) : T(2));
         for (std::size_t i = 0; i != n; ++i)
         {
@@ -240,7 +241,7 @@ struct traced_mc_fn
         // note: projector.add asks the point for its weight; only do so if the integrand did anyway
         bool wreq = c->spec().wreq;
         T r = (*this)(p);
-        if (wreq) pr.add(0, p.coordinates()[0], T(1));
+        if (wreq) pr.add(0, p.coordinates().empty() ? p.point()[0] : p.coordinates()[0], T(1));
         return r;
     }
     T operator()(hep::multi_channel_point<T> const& p) const
@@ -401,10 +402,10 @@ inline void run_mc(call_ctx<T>& c, E const& engine, std::vector<T> const& weight
         c.last_draws = cnt().draws;
         E before = chk.generator();
         if (c.dists)
-            chk = hep::multi_channel(hep::make_multi_channel_integrand<T>(traced_mc_fn<T>{&c}, c.cfg.d, traced_map<T>{&c}, c.md ? c.md : c.cfg.d, n,
+            chk = hep::multi_channel(hep::make_multi_channel_integrand<T>(traced_mc_fn<T>{&c}, c.cfg.d, traced_map<T>{&c}, c.md0 ? 0 : (c.md ? c.md : c.cfg.d), n,
                 hep::make_dist_params<T>(3, T(), T(1), "x")), std::vector<std::size_t>{N}, chk, hep::callback<C>(hep::callback_mode::silent));
         else
-        chk = hep::multi_channel(hep::make_multi_channel_integrand<T>(traced_mc_fn<T>{&c}, c.cfg.d, traced_map<T>{&c}, c.md ? c.md : c.cfg.d, n),
+        chk = hep::multi_channel(hep::make_multi_channel_integrand<T>(traced_mc_fn<T>{&c}, c.cfg.d, traced_map<T>{&c}, c.md0 ? 0 : (c.md ? c.md : c.cfg.d), n),
             std::vector<std::size_t>{N}, chk, hep::callback<C>(hep::callback_mode::silent));
         E expect = before;
         expect.discard((unsigned long long) N * (c.cfg.d + 1) * hep::random_number_usage<T, E>());
